@@ -277,6 +277,9 @@ def _shard_deploy(shard, seed, tier):
     part = core.Partial()
     mname = shard
     mode = DEPLOY_MODES[mname]
+    if not deploy.supported(mode):
+        part.count("deploy_mode_not_possible_here")
+        return part
     spec = _spec_a()
     base = deploy.Server(spec, DEPLOY_BASE, tag="c03d")
     srv = deploy.Server(spec, mode, tag="c03d")
